@@ -508,3 +508,49 @@ fn record_scc_fl<F: Fl>(opts: &HashMap<String, String>) -> Value {
     f.flush().unwrap();
     json!({"flavour": F::NAME, "events": events, "graphs": graphs})
 }
+
+// ---------------------------------------------------------------------------
+/// `--replay`: re-execute one stored case (adjacency operation or traversal query) and print what happens now
+pub fn one_case(opts: &HashMap<String, String>) -> Value {
+    let file = opts.get("case").expect("--case");
+    let v: Value = serde_json::from_str(&std::fs::read_to_string(file).expect("read case")).expect("case json");
+    let c = &v["case"];
+    let fl = c["flavour"].as_str().unwrap_or("digraph").to_string();
+    with_flavour!(fl.as_str(), one_case_fl(c))
+}
+
+fn one_case_fl<F: Fl>(c: &Value) -> Value {
+    if c.get("op").is_some() && c.get("pre").is_some() {
+        let pre = AState { out: lists(&c["pre"]["out"]), inn: lists(&c["pre"]["inn"]) };
+        let w = match guarded(|| World::<F>::build(&pre, None)) {
+            Guarded::Ok(Ok(w)) => w,
+            o => return json!({"kind": "adjacency", "error": format!("{:?}", o.failure())}),
+        };
+        let variant = HANDLE_NAMES.iter().position(|n| Some(*n) == c["via"].as_str()).unwrap_or(0);
+        let (res, used) = w.apply(&Op::from_json(&c["op"]), variant);
+        let post = w.project_guarded();
+        let obs = guarded(|| w.obs());
+        return json!({"kind": "adjacency", "flavour": F::NAME, "pre": pre, "op": c["op"], "via": HANDLE_NAMES[used], "res": res,
+                      "post": post.as_ref().ok(), "post_error": post.as_ref().err(),
+                      "obs": match &obs { Guarded::Ok(o) => json!(o), o => json!(o.failure()) }});
+    }
+    if c.get("kind").is_some() && c.get("entry").is_some() {
+        let st = AState { out: lists(&c["out"]), inn: lists(&c["inn"]) };
+        let nval: Vec<NV> = serde_json::from_value(c["nval"].clone()).unwrap_or_else(|_| vec![0; st.n()]);
+        let w = match guarded(|| World::<F>::build(&st, Some(&nval))) {
+            Guarded::Ok(Ok(w)) => w,
+            o => return json!({"kind": "query", "error": format!("{:?}", o.failure())}),
+        };
+        let rej: HashSet<Triple> = triples(&c["rej"]).into_iter().collect();
+        let t = c["target"].as_u64().unwrap_or(0);
+        let q = Query { kind: Kind::parse(c["kind"].as_str().unwrap()), entry: Entry::parse(c["entry"].as_str().unwrap()),
+            target: if t == 0 { None } else { Some(t as K) }, transpose: c["dir"] == json!("in"),
+            meth: match c["meth"].as_str().unwrap_or("plain") { "plain" => Meth::Plain, "for_each" => Meth::ForEach, _ => Meth::Filter },
+            repeat: c["builder_reused"].as_bool().unwrap_or(false) };
+        let o = run_query(&w, c["root"].as_u64().unwrap() as K, &q, &rej);
+        return json!({"kind": "query", "flavour": F::NAME, "out": st.out, "inn": st.inn, "nval": nval, "query": {"kind": c["kind"], "root": c["root"],
+            "dir": c["dir"], "cyc": c["cyc"], "rej": c["rej"], "target": t, "entry": c["entry"], "meth": c["meth"]},
+            "res": o.res, "rt": res_tag(&o.res), "examined": o.examined});
+    }
+    json!({"kind": "other", "note": "this kind of case is re-run by the quick check itself; the stored case is printed", "case": c})
+}
